@@ -1213,6 +1213,64 @@ class DaskIndexOp:
         return x[(y % 7) > a["thr"]] if y.dtype.kind != "b" else x[y]
 
 
+@op("int_index", arity=1, weight=0.5)
+class IntIndexOp:
+    """A 1-d integer dask array holding valid (also negative) positions along one axis of x: an index
+    COLLECTION of its own, so that it can have other consumers, be a target, be persisted, be mutated."""
+
+    @staticmethod
+    def gen(rng, ctx, ins):
+        (x,) = ins
+        if not known(x) or x.ndim < 1:
+            return None
+        axes = [d for d in x.shape if d >= 2]
+        if not axes:
+            return None
+        n = int(rng.choice(axes))
+        dt = rng.choice(["i8", "i8", "i8", "i4", "u1"])
+        k = rng.randint(1, min(6, 2 * n))
+        lo = 0 if dt == "u1" or rng.random() < 0.3 else -n
+        vals = [rng.randint(lo, n - 1) for _ in range(k)]
+        if lo < 0 and rng.random() < 0.7:
+            vals[rng.randrange(k)] = rng.randint(-n, -1)
+        if rng.random() < 0.5:
+            vals = sorted(set(vals))
+        return {"n": n, "values": vals, "dtype": dt, "chunks": rng.randint(1, len(vals))}
+
+    @staticmethod
+    def apply(env, ins, a):
+        return _da().from_array(np.array(a["values"], dtype=a["dtype"]), chunks=a["chunks"])
+
+
+@op("take_dask", arity=1, weight=1.0)
+class TakeDaskOp:
+    """x[..., idx, ...] / da.take(x, idx, axis) with idx a dask integer collection of the program."""
+
+    @staticmethod
+    def gen(rng, ctx, ins):
+        (x,) = ins
+        if not known(x) or x.ndim < 1:
+            return None
+        cands = [(s_["out"], ax) for s_ in ctx.recipe["steps"] if s_["op"] == "int_index"
+                 for ax, d in enumerate(x.shape) if d == s_["args"]["n"] and s_["out"] in ctx.env.vars]
+        if not cands:
+            return None
+        v, ax = rng.choice(cands)
+        return {"index_var": v, "axis": ax, "how": rng.choice(["getitem", "take"])}
+
+    @staticmethod
+    def extra_inputs(a):
+        return [a["index_var"]]
+
+    @staticmethod
+    def apply(env, ins, a):
+        (x,) = ins
+        idx = env.vars[a["index_var"]]
+        if a["how"] == "take":
+            return _da().take(x, idx, axis=a["axis"])
+        return x[(slice(None),) * a["axis"] + (idx,)]
+
+
 # =========================================================================== generator
 
 
